@@ -31,6 +31,10 @@ def gen_cfg(rnd, i=0):
         cfg["storage"] = ["uniform", "geometric", "batch", "interval"][(i // 4) % 4]
         cfg["imputer"] = ["joint", "product", "default-arg"][(i // 4) % 3]
         cfg["explainer"] = ["sage", "pfi", "interval", "sage"][(i // 4) % 4]
+    elif i % 12 == 5:       # rarely drawn combination made certain: batch explainer in original mode on a plain storage
+        cfg.update(explainer="batch", original_sage=True, storage=["batch", "uniform"][(i // 12) % 2], imputer="joint", steps=15)
+    elif i % 12 == 9:       # ... and explainers built entirely from library defaults
+        cfg.update(explainer=["sage", "pfi"][(i // 12) % 2], storage="library-default", imputer="joint")
     return cfg
 
 
